@@ -304,7 +304,11 @@ protected:
                 if (iTerator == this->m_blocks.end() ||
                     (*iTerator)->blockAvailable() )
                 {
+                    ReusableArenaBlockType* const   theBlock = this->m_blocks.front();
+
                     this->m_blocks.pop_front();
+
+                    XalanDestroy(this->getMemoryManager(), *theBlock);
                 }
             }
         }
